@@ -24,6 +24,9 @@ def run(res, tier, seed):
     T["host"].run(OPS, seed + 1, 10 if quick else 80, 300 if quick else 600)
     T["small"].run(OPS, seed + 2, 80 if quick else 600, 140)
     T["small"].run(OPS, seed + 3, 30 if quick else 250, 300 if quick else 600, tri_big=(257, 330 if quick else 600, 0.8))
+    # Tier B: the recursive models with the word base cases and the Four-Russians middle regime (TRSMRec.v), build's thresholds
+    from props import tierb
+    tierb.run(res, "C04", tier, seed)
 
 
 def replay(res, path):
